@@ -33,6 +33,11 @@ FLAVOURS = {
     "tsan": dict(cxx="g++", flags=COMMON + ["-O1", "-g1", "-fsanitize=thread", "-march=native", "-pthread",
                                             "-Wno-unknown-pragmas"],
                  env={"TSAN_OPTIONS": "halt_on_error=0:exitcode=0:report_signal_unsafe=0:history_size=4:second_deadlock_stack=1"}),
+    # races inside the chunked OpenMP builder: clang + ThreadSanitizer + Archer (OMPT tool that teaches TSan OpenMP's
+    # synchronisation); pgm_index.hpp only (clang 14 cannot parse pgm_index_variants.hpp)
+    "tsanomp": dict(cxx="clang++-14", flags=COMMON + HOOKS + ["-fopenmp", "-O1", "-g1", "-fsanitize=thread", "-march=native"],
+                    env={"OMP_TOOL_LIBRARIES": "/usr/lib/llvm-14/lib/libarcher.so",
+                         "TSAN_OPTIONS": "halt_on_error=0:exitcode=0:ignore_noninstrumented_modules=1:report_signal_unsafe=0"}),
     # advisory: undefined-behaviour reports are listed in the evidence, never a verdict
     "ubsan": dict(cxx="g++", flags=COMMON + HOOKS + ["-fopenmp", "-O1", "-g1", "-fsanitize=undefined,float-cast-overflow",
                                                      "-fsanitize-recover=all", "-march=native"],
